@@ -47,7 +47,9 @@ func (x *Exec) tr(e CExpr, env *Env) Val {
 	case *CIdent:
 		return x.trIdent(t, env)
 	case *COld:
-		return x.tr(t.X, env.inState(env.old))
+		oe := env.inState(env.old)
+		oe.inOld = true
+		return x.tr(t.X, oe)
 	case *CUn:
 		switch t.Op {
 		case "!":
@@ -110,6 +112,14 @@ func (x *Exec) tr(e CExpr, env *Env) Val {
 func (x *Exec) trIdent(t *CIdent, env *Env) Val {
 	if v, ok := env.vars[t.Name]; ok {
 		return v
+	}
+	if env.inOld && env.fr != nil {
+		// old(x) of a parameter is its entry value
+		for _, p := range env.fr.fn.Params {
+			if p.Name() == t.Name {
+				return env.fr.vals[p]
+			}
+		}
 	}
 	if env.lookup != nil {
 		if v, ok := env.lookup(t.Name); ok {
@@ -261,7 +271,7 @@ func (x *Exec) selLoc(base Val, name string, env *Env) *Loc {
 	if base.T == nil {
 		return nil
 	}
-	pt, ok := types.Unalias(base.T).Underlying().(*types.Pointer)
+	pt, ok := under(base.T).(*types.Pointer)
 	if !ok {
 		return nil
 	}
@@ -329,7 +339,7 @@ func (x *Exec) trSel(t *CSel, env *Env) Val {
 	if loc := x.selLoc(base, t.Name, env); loc != nil {
 		v := x.load(env.cur, loc)
 		if loc.Kind == lField && strings.Contains(loc.Key, ".") {
-			if si := x.so.structOf(types.Unalias(base.T).Underlying().(*types.Pointer).Elem()); si != nil && x.eng.ghostField(si, t.Name) != nil {
+			if si := x.so.structOf(under(base.T).(*types.Pointer).Elem()); si != nil && x.eng.ghostField(si, t.Name) != nil {
 				v.GM = x.eng.ghostMapInfoOfType(x, loc.T)
 			}
 		}
@@ -365,7 +375,7 @@ func (x *Exec) trIndex(t *CIdx, env *Env) Val {
 		// ghost total map / set: select
 		return Val{T: b.GM.Elem, S: sel(b.S, i.S), GM: x.eng.ghostMapInfoOfType(x, b.GM.Elem)}
 	}
-	switch bt := types.Unalias(b.T).Underlying().(type) {
+	switch bt := under(b.T).(type) {
 	case *types.Slice:
 		key, srt := x.elemKey(bt.Elem())
 		return Val{T: bt.Elem(), S: sel(sel(x.heapGet(env.cur, key, srt), app("s_reg", b.S)), app("sidx", b.S, i.S))}
@@ -393,11 +403,7 @@ func (x *Exec) trQuant(t *CQuant, env *Env) Val {
 		name := fmt.Sprintf("%s_q%d", v.Name, x.qn)
 		ne = ne.with(v.Name, Val{T: ty, S: name})
 		binders = append(binders, fmt.Sprintf("(%s %s)", name, x.so.sortOf(ty)))
-		if v.Type != "" && v.Type != "int" {
-			if rf := rangeFact(ty, name); rf != "" {
-				guards = append(guards, rf)
-			}
-		}
+		// no range guards on bound variables: contracts quantify over mathematical integers
 	}
 	body := x.trBool(t.Body, ne)
 	q := "forall"
@@ -481,6 +487,11 @@ func (x *Exec) trCall(t *CCall, env *Env) Val {
 		return Val{T: tBool, S: app("timeIsZero", arg(0).S)}
 	case "after":
 		return Val{T: tBool, S: app("timeAfter", arg(0).S, arg(1).S)}
+	case "ioerr":
+		// an error produced by the operating system / an external package: never one of the
+		// module's sentinels and never wrapping one
+		x.declIOErr()
+		return Val{T: tBool, S: app("ioErr", arg(0).S)}
 	case "region":
 		return Val{T: tInt, S: app("s_reg", arg(0).S)}
 	case "card":
@@ -494,12 +505,12 @@ func (x *Exec) trCall(t *CCall, env *Env) Val {
 		return Val{T: tInt, S: x.mapLen(env.cur, m)}
 	case "domain":
 		m := arg(0)
-		mt := types.Unalias(m.T).Underlying().(*types.Map)
+		mt := under(m.T).(*types.Map)
 		return Val{T: nil, S: x.mapDom(env.cur, m), GM: &ghostMap{KeySort: x.so.sortOf(mt.Key()), Elem: tBool}}
 	case "bytesEq":
 		return Val{T: tBool, S: x.bytesEq(env.cur, arg(0), arg(1))}
 	case "bseq":
-		return Val{T: nil, S: x.bseq(env.cur, arg(0))}
+		return Val{T: bseqType, S: x.bseq(env.cur, arg(0))}
 	case "held":
 		return Val{T: tInt, S: x.heldTerm(env.cur, arg(0))}
 	}
@@ -538,7 +549,7 @@ func (x *Exec) specApp(sd *SpecDecl, args []CExpr, env *Env) Val {
 		pt := x.eng.resolveType(pk, p.Type)
 		v := x.tr(args[i], env)
 		v = x.coerce(v, pt)
-		if slt, ok := types.Unalias(pt).Underlying().(*types.Slice); ok {
+		if slt, ok := under(pt).(*types.Slice); ok {
 			key, srt := x.elemKey(slt.Elem())
 			es := x.so.sortOf(slt.Elem())
 			sorts = append(sorts, "(Array Int "+es+")", "Int", "Int")
@@ -627,6 +638,16 @@ func isNamedType(t types.Type) bool {
 	return ok
 }
 
+func (x *Exec) declIOErr() {
+	if x.sc.declared["f:ioErr"] {
+		return
+	}
+	x.sc.declFun("ioErr", []string{"Err"}, "Bool")
+	x.sc.declFun("errId", []string{"Err"}, "Int")
+	x.sc.assert("(forall ((e Err)) (! (=> (ioErr e) (and (>= (errId e) 1000000) (not (= e nilErr)) (forall ((t Err)) (! (=> (wraps e t) (or (>= (errId t) 1000) (= t e))) :pattern ((wraps e t)))))) :pattern ((ioErr e))))")
+	x.trustedUsed["errors from the OS / external packages (ioerr) are not and do not wrap klevdb sentinel errors"] = true
+}
+
 // ---- byte sequences ----
 
 func (x *Exec) bytesEq(st *State, a, b Val) Term {
@@ -664,7 +685,7 @@ func (x *Exec) ghostVarKey(gv *GhostVar) (string, string) {
 
 // ghostSort: ghost maps are total SMT arrays.
 func (x *Exec) ghostSort(t types.Type) string {
-	if mt, ok := types.Unalias(t).Underlying().(*types.Map); ok {
+	if mt, ok := under(t).(*types.Map); ok {
 		return "(Array " + x.so.sortOf(mt.Key()) + " " + x.ghostSort(mt.Elem()) + ")"
 	}
 	return x.so.sortOf(t)
